@@ -249,6 +249,37 @@ def run(tier, seed):
             rep.check(rid, len(sts) == 1 and is_const(sts[0].ops[0]) and (const_val(sts[0].ops[0]) & 0xFFFFFFFF) == 0xFFFFFFFF,
                       "last_block starts at UINT_MAX", nw.file, None, function=nw.cname, obj="init")
 
+        # ---- R4b progress follows the position -------------------------------------------------------------
+        rid = rep.rule("R4b", "in lha_decoder_read the progress check runs after the position update: every path from the store to stream_pos to a return crosses "
+                              "check_progress_callback (so the blocks reported are those of the bytes already delivered, whatever the read schedule)", 1)
+        dr = mod.fn("lha_decoder_read")
+        if dr is not None:
+            Fd = ctx.facts(dr)
+            sts = stores_to_field(mod, DEC, "stream_pos", [dr])
+            pcs = list(dr.calls("check_progress_callback"))
+            cut = set()
+            for c in pcs:
+                cut |= {(c.block.id, x) for x in c.block.succs} | ({(c.block.id, "ret")} if not c.block.succs else set())
+            # no monitor attached: nothing to report (the edge that establishes progress_callback == NULL after the store counts as crossing)
+            Md = Matcher(dr)
+            for b_ in dr.blocks:
+                for s_ in b_.succs:
+                    if Md.find_fact(("eq", ("load", ("field", DEC, "progress_callback", ANY)), 0), Fd.edge_facts(b_.id, s_))[0] is not None:
+                        cut.add((b_.id, s_))
+            for st in sts:
+                after_in_block = any(c.block.id == st.block.id and c.idx > st.idx for c in pcs)
+                bad = None
+                if not after_in_block:
+                    for rt in rets(dr):
+                        if rt.block.id == st.block.id or Fd.reaches_avoiding(st.block.id, rt.block.id, {e for e in cut if not (e[0] == st.block.id and
+                                                                              any(c.block.id == st.block.id and c.idx < st.idx for c in pcs))}, start_after=st):
+                            bad = rt
+                            break
+                rep.check(rid, bad is None and bool(pcs), "the progress check follows the update of stream_pos on every path to the return", st.where(),
+                          None if bad is None and pcs else "the function can return after advancing stream_pos without having run the progress check on the new position: the "
+                          "monitor lags one read behind and never reaches the total unless a further read is made", function=dr.cname, obj="progress-after-pos")
+            rep.check(rid, len(sts) >= 1, "position store found", dr.file, None, function=dr.cname, obj="pos-store")
+
         # ---- R5 short-read discipline -----------------------------------------------------------------
         # The decoded bytes are a function of the input stream only if no decoder consumes a byte that the input callback did not
         # deliver: after `n = callback(buf, want, data)` into a local buffer, buf[k] may be read only under a fact that implies n > k.
